@@ -390,7 +390,7 @@ class Box3dCorr(Corr):
     header = ("From Coq Require Import List ZArith QArith Bool.\nFrom PE Require Import Base.CaseUtil Model.Geom2 Model.Clip.\n"
               "Import ListNotations.\nOpen Scope Q_scope.\n")
     requires = ["Model/Geom2.vo", "Model/Clip.vo", "Base/CaseUtil.vo"]
-    shard = 60
+    shard = 40
 
     def cases(self, tier, rng):
         n = 520 if tier == "quick" else 8000
